@@ -259,15 +259,10 @@ Lemma repaired_repetition_witnesses :
   (exists h t, pipeline 400 1 wit_rep_inner = Ok (h, t) /\ plays h (fst (staircase wit_rep_inner)) = true).
 Proof. split; eexists; eexists; (split; [vm_compute; reflexivity|vm_compute; reflexivity]). Qed.
 
-Lemma staircase_refuted_zero_factor : ~ C17_staircase_unguarded false true.
-Proof.
-  eapply (refute_with false true 1%nat wit_zero 200%positive).
-  - vm_compute; reflexivity.
-  - intros H; discriminate H.
-  - intros _; vm_compute; reflexivity.
-  - vm_compute; reflexivity.
-  - vm_compute; reflexivity.
-Qed.
+(* the witness of the former finding `zero-factor-aliases-plain` plays its staircase since the repair *)
+Lemma repaired_zero_factor_witness :
+  exists h t, pipeline 200 1 wit_zero = Ok (h, t) /\ plays h (fst (staircase wit_zero)) = true.
+Proof. eexists; eexists. split; vm_compute; reflexivity. Qed.
 
 Lemma compile_refuted_key_depth :
   src_wf 2 wit_depth = true /\ guard_C17_zero_factor wit_depth = true /\
